@@ -234,6 +234,15 @@ func ruleTMPLGUARD(c *Ctx) {
 	}
 	refNames := map[string]bool{"nodeTypeRef": true, "nodeTypePkg": true, "nodeFlagsRef": true, "nodeFlagsPkg": true}
 	n := 0
+	// stream.go is written only under Options.TokenStream (gen.(*language).templates); when the
+	// options parser refuses TokenStream without EventBased, the whole file implies node types
+	impl := c.optionImplications()
+	streamImpliesTypes := false
+	for _, b := range impl["TokenStream"] {
+		if b == "EventBased" {
+			streamImpliesTypes = true
+		}
+	}
 	for _, fn := range []string{"go_parser.go.tmpl", "go_parser_tables.go.tmpl", "go_stream.go.tmpl"} {
 		f := files[fn]
 		if f == nil {
@@ -285,6 +294,8 @@ func ruleTMPLGUARD(c *Ctx) {
 				switch {
 				case impliesTypes(gs):
 					c.addT(rule, key, tmplPos(f, nd), OK, "guarded by {%s}", guardsString(gs))
+				case fn == "go_stream.go.tmpl" && streamImpliesTypes:
+					c.addT(rule, key, tmplPos(f, nd), OK, "stream.go is generated only under tokenStream, which compiler.(*optionsParser).parseFrom refuses without eventBased (node types exist)")
 				case tn != fn && definedUnder(tn, 0):
 					c.addT(rule, key, tmplPos(f, nd), OK, "every use of {{template %q}} is guarded by a condition implying .Parser.Types", tn)
 				default:
